@@ -27,6 +27,10 @@ def gen_config(rnd, S, opts=None):
                "futures_settlement_price_type": rnd.choice(["close", "settlement"])}
     if opts.get("c06_plans"):
         S["_c06_plans"] = True           # follow-up orders sent from a TRADE handler; a resting auction order plus bar orders on one instrument
+    if opts.get("force_volume_limit"):
+        sim["volume_limit"] = True
+    if opts.get("trade_handler_acts"):
+        S["_trade_handler_acts"] = True  # the strategy's TRADE handler sends follow-up orders and cancels other open orders while the matching pass runs
     if opts.get("otp"):
         S["_otp"] = True                 # order_target_portfolio calls with per-instrument limit prices
     if opts.get("frac_fut"):
@@ -157,7 +161,39 @@ def run_trading(rnd, S, cfgk, intensity=1.0, script=None, analyser=False, ids=No
                                                   "frozen_price": float(t.frozen_price) if t.frozen_price is not None else None},
                                         "order": order_snap(o) if o is not None else None, "accounts": accounts_snap(context),
                                         "open": [x.order_id for x in env.broker.get_open_orders()]}))
-            if S.get("_c06_plans") and o is not None and reseed_key is None and not follow["busy"] and t.order_book_id in stocks \
+            if S.get("_trade_handler_acts") and o is not None and plan.get("pair") == o.order_id and not follow["busy"]:
+                # directed: the fill of the first order cancels the newest other open order on the instrument — the one whose submission
+                # triggered this matching pass and which the pass has not reached yet
+                plan["pair"] = None
+                others = [x for x in env.broker.get_open_orders() if x.order_id != o.order_id and x.order_book_id == o.order_book_id]
+                if others:
+                    follow["busy"] = True
+                    try:
+                        trade_cancel(context, max(others, key=lambda x: x.order_id))
+                        tr.stats["directed_cancel_of_next_in_pass"] += 1
+                    finally:
+                        follow["busy"] = False
+            if S.get("_trade_handler_acts") and o is not None and plan.get("pair_bar") and plan["pair_bar"][0] == o.order_id and env.calendar_dt.hour != 0 and not follow["busy"]:
+                # directed: at the day bar the fill of the first resting remainder cancels the second, which the same pass has not reached yet
+                second = tr.orders.get(plan["pair_bar"][1])
+                plan["pair_bar"] = None
+                if second is not None and not second.is_final():
+                    follow["busy"] = True
+                    try:
+                        trade_cancel(context, second)
+                        tr.stats["directed_cancel_of_next_in_bar_pass"] += 1
+                    finally:
+                        follow["busy"] = False
+            if S.get("_trade_handler_acts") and o is not None and reseed_key is None and not follow["busy"] and follow["rnd"].random() < 0.3:
+                # a strategy that reacts to a fill by cancelling another order that is still open (possibly one the running matching pass has not reached yet)
+                others = [x for x in env.broker.get_open_orders() if x.order_id != o.order_id]
+                if others:
+                    follow["busy"] = True
+                    try:
+                        trade_cancel(context, follow["rnd"].choice(others))
+                    finally:
+                        follow["busy"] = False
+            if (S.get("_c06_plans") or S.get("_trade_handler_acts")) and o is not None and reseed_key is None and not follow["busy"] and t.order_book_id in stocks \
                     and tr.stats.get("_phase") == "BAR" and env.calendar_dt.hour != 0 and follow["rnd"].random() < 0.35:
                 # (subscribed handlers run in the GLOBAL phase, where the order APIs are allowed; only while the day bar is being
                 # handled: an order sent from a handler during the auction lands in the regular book — the mechanism of finding F18)
@@ -169,7 +205,24 @@ def run_trading(rnd, S, cfgk, intensity=1.0, script=None, analyser=False, ids=No
                     follow["busy"] = False
         subscribe_event(EVENT.TRADE, on_trade)
 
-    follow = {"busy": False, "rnd": random.Random(rnd.random()) if S.get("_c06_plans") else None}
+    follow = {"busy": False, "rnd": random.Random(rnd.random()) if (S.get("_c06_plans") or S.get("_trade_handler_acts")) else None}
+
+    def trade_cancel(context, order):
+        import rqalpha.api as api
+        env = Environment.get_instance()
+        call = {"phase": tr.stats.get("_phase"), "when": env.calendar_dt, "api": "cancel_order", "args": (order.order_id,), "orders": [], "exc": None, "from_trade_handler": True}
+        before, pf_before = accounts_snap(context), pf_snap(context)
+        open_before = [x.order_id for x in env.broker.get_open_orders()]
+        try:
+            api.cancel_order(order)
+        except Exception as ex:
+            call["exc"] = (type(ex).__name__, str(ex)[:200])
+        call.update(val_range=(len(tr.rec.validations), len(tr.rec.validations)), pos_before={}, open_after=[x.order_id for x in env.broker.get_open_orders()], open_before=open_before,
+                    before=before, after=accounts_snap(context), pf_after=pf_snap(context), pf_before=pf_before)
+        tr.calls.append(call)
+        tr.events.append(("CALL", call))
+        tr.stats["calls"] += 1
+        tr.stats["cancels_from_trade_handler"] += 1
 
     def trade_followup(context, oid):
         import rqalpha.api as api
@@ -246,6 +299,51 @@ def run_trading(rnd, S, cfgk, intensity=1.0, script=None, analyser=False, ids=No
                     return [r0, r1, r2]
                 out.append(fg)
             return out
+        # two auction limit orders on one instrument that both rest through the auction and both fill on the day bar (one matching pass)
+        if S.get("_trade_handler_acts") and phase == "AUC" and stocks and "STOCK" in context.portfolio.accounts and reseed_key is None:
+            try:
+                di2 = S["cal"].index(env.trading_dt.date())
+            except ValueError:
+                di2 = None
+            plan["pair"] = None
+            for srec in (S["stocks"] if di2 is not None else []):
+                bar = srec["bars"].get(di2)
+                if srec["id"] in stocks and bar is not None and bar[2] <= bar[1] - 0.04 and bar[5] * cfgk["sim"].get("volume_percent", 0.25) >= 400 \
+                        and context.portfolio.accounts["STOCK"].cash > 450 * bar[1] and srnd.random() < 0.6:
+                    def f11(call, before, oid=srec["id"], lim=round((bar[1] + bar[2]) / 2, 2)):
+                        call.update(api="plan_two_resting", args=(oid, lim))
+                        a = api.order_shares(oid, 100, price_or_style=LimitOrder(lim))      # rests in the auction (limit below the open)
+                        if a is not None and not a.is_final():
+                            plan["pair"] = a.order_id
+                        b = api.order_shares(oid, 200)                                      # marketable at the open
+                        plan["pair"] = None
+                        return [a, b]
+                    out.append(f11)
+                    break
+        # two auction limit orders on two instruments, each larger than its auction volume cap: both are partly filled in the auction and
+        # both remainders rest in the regular book, where one matching pass at the day bar reaches them one after the other
+        if S.get("_trade_handler_acts") and phase == "AUC" and len(stocks) >= 2 and "STOCK" in context.portfolio.accounts and reseed_key is None:
+            try:
+                di3 = S["cal"].index(env.trading_dt.date())
+            except ValueError:
+                di3 = None
+            plan["pair_bar"] = None
+            pct3 = cfgk["sim"].get("volume_percent", 0.25)
+            cands = []
+            for srec in (S["stocks"] if di3 is not None else []):
+                bar = srec["bars"].get(di3)
+                if srec["id"] in stocks and bar is not None and bar[7] == bar[7] and 200 <= round(bar[5] * pct3) <= 20000 and bar[1] < bar[7] and bar[2] < bar[7] and srec["lot"] == 100:
+                    cands.append((srec["id"], int(round(bar[5] * pct3)) // 100 * 100, bar[7]))
+            need = sum(2.2 * c * lu for _, c, lu in cands[:2])
+            if len(cands) >= 2 and cfgk["sim"].get("volume_limit", True) and context.portfolio.accounts["STOCK"].cash > need and srnd.random() < 0.7:
+                def f12(call, before, cands=cands[:2]):
+                    call.update(api="plan_two_partial", args=tuple((c[0], 2 * c[1], c[2]) for c in cands))
+                    a = api.order_shares(cands[0][0], 2 * cands[0][1], price_or_style=LimitOrder(cands[0][2]))
+                    b = api.order_shares(cands[1][0], 2 * cands[1][1], price_or_style=LimitOrder(cands[1][2]))
+                    if a is not None and b is not None and not a.is_final() and not b.is_final():
+                        plan["pair_bar"] = (a.order_id, b.order_id)
+                    return [a, b]
+                out.append(f12)
         # an auction limit order that rests through the auction and fills on the day bar, then a bar order on the same instrument
         if S.get("_c06_plans") and stocks and "STOCK" in context.portfolio.accounts and reseed_key is None:
             try:
